@@ -71,6 +71,8 @@ def concretize(v, model=None):
         return {"b": builtins.bytes(v).hex()}
     if isinstance(v, SymDecStr):
         return builtins.str(concretize(v.value, model))
+    if getattr(v, "pieces", None) is not None and isinstance(v, builtins.str):
+        return v.concrete_with(lambda x: concretize(x, model))
     if isinstance(v, SymStr):
         return "".join(chr(x if isinstance(x, int) else ev(x).as_long()) for x in v.items)
     if isinstance(v, builtins.str):
